@@ -154,6 +154,19 @@ CLAIMS = {
         technique="must-fact dataflow with history facts and dominator reasoning, callee summaries, tabulation of the two "
                   "fingerprint routines by constant evaluation, table agreement of extents",
         design="5 C16"),
+    "C17": dict(
+        text="Clause-level structural decision: the server treats a query as tunnel traffic only under a non-negative "
+             "query_datalen result (which is also the length handed on) and forwards only otherwise; both main functions start "
+             "tunnelling only after check_topdomain succeeded with the right wildcard flag (noreturn-ness of usage() is inferred); "
+             "every match exit of the matcher passes the label-boundary test, every character consumed or matched under the "
+             "wildcard is dominated by the star test on that character, and the comparison folds case on both operands; the "
+             "validator's per-character acceptance set is tabulated for all 256 byte values x position x wildcard flag by constant "
+             "evaluation of one loop iteration and equals [A-Za-z0-9.-] plus a leading '*.', and every accepting return passed "
+             "the length, leading-dot, empty-label, label-length and no-dot guards. Not decided: index arithmetic inside the "
+             "backward matching loop that keeps all tests in place.",
+        technique="must-fact dataflow (history facts, inferred noreturn), tabulation of a pure predicate by constant evaluation "
+                  "over the finite byte domain",
+        design="5 C17"),
 }
 
 NA = {
